@@ -16,7 +16,7 @@ package ethereum
 //   - a receipt lookup may fail with any error, with or without a receipt value (ethclient
 //     returns no receipt with an error); success comes with a receipt (ethclient turns
 //     (nil, nil) into ethereum.NotFound);
-//   - a receipt carries a block number;
+//   - a receipt carries a block number, far from the uint64 boundary;
 //   - a log of a non-anonymous event has at least one topic (the Wormhole core contract
 //     declares no anonymous events) - assumed for logs of any address;
 //   - abigen's ParseLogMessagePublished copies the log it parsed into ev.Raw.
@@ -24,7 +24,7 @@ package ethereum
 //@   assume-contract
 //@   counts receipt
 //@   ensures err == nil ==> r != nil
-//@   ensures r != nil ==> allocated(r) && r.BlockNumber != nil && allocated(r.BlockNumber)
+//@   ensures r != nil ==> allocated(r) && r.BlockNumber != nil && allocated(r.BlockNumber) && bigOf(r.BlockNumber) >= 0 && bigOf(r.BlockNumber) <= 4611686018427387904
 //@   ensures r != nil ==> forall i in 0..len(r.Logs) :: r.Logs[i] == nil || (allocated(r.Logs[i]) && len(r.Logs[i].Topics) >= 1)
 //@   modifies fresh types.Receipt.*, fresh types.Log.*, fresh lib:big.Int.v
 
@@ -58,6 +58,7 @@ package ethereum
 //@   requires ethConn != nil
 //@   ensures [messages-wellformed] err == nil ==> forall k in 0..len(msgs) :: msgs[k] != nil && allocated(msgs[k]) && msgs[k].EmitterChain == chainId
 //@   ensures [error-returns-nothing] err != nil ==> len(msgs) == 0
+//@   ensures [block-number-sane] err == nil ==> n <= 4611686018427387904
 //@   modifies fresh common.MessagePublication.*, fresh types.Receipt.*, fresh types.Log.*, fresh lib:big.Int.v, fresh abi.AbiLogMessagePublished.*
 //@   nopanic
 //@   replay ethereum_watcher.go.tmpl
